@@ -709,8 +709,17 @@ func (c *Ctx) checkConversionLetters() {
 	v, err := c.newFolder().foldCall(target, []fval{{k: constant.MakeInt64(int64('x')), t: types.Typ[types.Rune]}})
 	if err == nil && v.k != nil && conv != nil {
 		n, _ := constant.Int64Val(v.k)
-		r2, err := c.newFolder().foldCall(conv, []fval{{k: constant.MakeInt64(n), t: conv.Params[0].Type()}, top})
+		fd2 := c.newFolder()
+		r2, err := fd2.foldCall(conv, []fval{{k: constant.MakeInt64(n), t: conv.Params[0].Type()}, top})
 		isErrClosure := err == nil && r2.fn != nil && strings.Contains(forwardedTarget(r2).Name(), "$")
+		if err == nil && r2.fn != nil && !isErrClosure {
+			// a named function: it fails for a key (folded on C major), whatever it is called
+			names, accs := c.enumConsts("note", "Name"), c.enumConsts("op", "Accidental")
+			keyC := fval{fields: map[string]fval{"Name": {k: constant.MakeInt64(names["C"])}, "Accidental": {k: constant.MakeInt64(accs["Natural"])}, "Minor": {k: constant.MakeBool(false)}}}
+			if r3, err3 := fd2.callValue(r2, []fval{keyC}); err3 == nil && len(r3.tuple) == 2 && r3.tuple[1].nonNil {
+				isErrClosure = true
+			}
+		}
 		c.check(isErrClosure, "cmd|conversionLetter|other", c.pos(target.Pos()), fname(target), "any other letter selects the failing conversion", "an unknown letter selects a real conversion instead of failing")
 	}
 }
@@ -1311,6 +1320,16 @@ func ruleTabDiatonic(c *Ctx) {
 	}
 	// pairing: generate indexes notes, names and result with one index
 	gen := c.fn("op", "DiatonicChorderImpl.generate")
+	if gen == nil && c.diatonicPaired != nil && len(c.diatonicPaired) == 2 {
+		// there is no such helper (any more), and none is needed: decided on what Triads() / Sevenths() return
+		if api := c.fn("op", "DiatonicChorderImpl.Triads"); api != nil {
+			c.site(1)
+			both := c.diatonicPaired["triadNames"] && c.diatonicPaired["seventhNames"]
+			c.check(both, "op.DiatonicChorderImpl.generate|pairing", c.pos(api.Pos()), fname(api), "chord i of Triads() / Sevenths() stands on note i of the scale (folded in all keys)", "the diatonic chords are not paired with the scale degrees by position: chord i of Triads() / Sevenths() does not stand on note i of the scale")
+			c.check(both, "op.DiatonicChorderImpl.generate|notes", c.pos(api.Pos()), fname(api), "the roots are the scale's notes (folded in all keys)", "the roots of the diatonic chords are not the scale's notes")
+			return
+		}
+	}
 	if gen == nil {
 		c.missing("op.DiatonicChorderImpl.generate")
 		return
